@@ -121,3 +121,13 @@ package st
 //@   requires m != nil
 //@   ensures forall j string :: j != k ==> (j in m) == old(j in m) && m[j] == old(m[j])
 //@   modifies map(m)
+
+//@ func each inline
+//@ func [ST] OkSelfAppendCaptured
+//@   requires n >= 0
+//@   ensures true
+//@   modifies nothing
+//@ func [ST] BadAppendCapturedCallerSlice
+//@   requires n >= 1 && cap(keep) >= 1
+//@   ensures true
+//@   modifies nothing
